@@ -46,86 +46,157 @@ def param_loops(fi):
     return out
 
 
-@rule("R09.1", min_instances=12, desc="writer/reader tables: every parameter kind is created, given its declared value, and updated by set_value through the same container and enumeration index")
+def parameter_scenario(ctx, cname):
+    """add_parameter / add_parameter_signals / set_parameter / set_value of a method class, run by the simulator (rkverif/sim.py)
+    on a stage with two global parameters, one per-interval, one per-interval-with-final-node and one B-spline parameter (all of
+    different shapes, so that an Opti parameter can be told by the shape it was created with).  Returns what was created for which
+    declared symbol and which value went where."""
+    from ..sim import Sim, fresh_obj
+    from ..layout import Sym, Obj, freeze, LayoutUnknown
+    P = ctx.prog
+    cache = P.__dict__.setdefault("_param_scenario", {})
+    if cname in cache:
+        return cache[cname]
+    N = 3
+    def par(name, r, c=1):
+        return fresh_obj(name, shape=(r, c), _rows=r)
+    decl = {"": [par("p0", 2), par("p1", 3)], "control": [par("pc0", 4)], "control+": [par("pp0", 5)], "bspline": [par("pb0", 6)]}
+    if cname == "DirectMethod":
+        decl = {"": decl[""], "control": [], "control+": [], "bspline": []}
+    by_shape = {}
+    for kind, lst in decl.items():
+        for o in lst:
+            by_shape[o.attrs["_rows"]] = (kind, o.name)
+    created = []
+
+    def h_parameter(sim, recv, a, k, n):
+        created.append(tuple(a))
+        return Sym("optiparam", len(created) - 1, tuple(freeze(x) for x in a))
+    writes = []
+
+    def h_set_value(sim, recv, a, k, n):
+        writes.append((a[0], a[1]))
+        return None
+    sig_table = {}
+
+    def h_register(sim, recv, a, k, n):
+        # BSplineSignal.register(signals, symbol, stage, signal)
+        if isinstance(a[0], dict):
+            a[0][freeze(a[1])] = a[3]
+        return None
+    catalog = {freeze(o): {"order": 1} for o in decl["bspline"]}
+    stage = fresh_obj("stage", parameters={k: list(v) for k, v in decl.items()}, _catalog=catalog)
+    hooks = {"opti.parameter": h_parameter, "opti.set_value": h_set_value, "BSplineSignal.register": h_register,
+             "BSplineSignal": lambda s_, r, a, k, n: fresh_obj("signal", coeff=a[0], parametric=k.get("parametric", a[4] if len(a) > 4 else False)),
+             ".size1": lambda s_, r, a, k, n: r.attrs["shape"][0] if isinstance(r, Obj) and "shape" in r.attrs else NotImplemented,
+             ".size2": lambda s_, r, a, k, n: r.attrs["shape"][1] if isinstance(r, Obj) and "shape" in r.attrs else NotImplemented,
+             "._param_value": lambda s_, r, a, k, n: Sym("declared_value", a[0].name if isinstance(a[0], Obj) else freeze(a[0])),
+             "is_equal": lambda s_, r, a, k, n: a[0] is a[1] or freeze(a[0]) == freeze(a[1]),
+             "hcat": lambda s_, r, a, k, n: Sym("hcat", tuple(freeze(x) for x in a[0])) if a and isinstance(a[0], list) else NotImplemented}
+    me = fresh_obj("self", N=N, P=[], P_control=[], P_control_plus=[], signals={}, xi=Sym("xi"), T=Sym("T"))
+    out = {"created": None, "transfer": None, "updates": {}, "reject": None, "error": None}
+    try:
+        sim = Sim(P, hooks=hooks)
+        sim.check_asserts = True
+        if cname == "DirectMethod":
+            sim.call(P.own_method("DirectMethod", "add_parameters"), [me, stage, Sym("opti")], {})
+        else:
+            sim.call(P.method(cname, "add_parameter"), [me, stage, Sym("opti")], {})
+            sim.call(P.method(cname, "add_parameter_signals"), [me, stage, Sym("opti")], {})
+        # which Opti parameter belongs to which declared symbol
+        owner = {}
+        def own(x, who):
+            if isinstance(x, Sym) and x.op == "optiparam":
+                owner[x.args[0]] = who
+            elif isinstance(x, list):
+                for y in x:
+                    own(y, who)
+        for i_, o in enumerate(decl[""]):
+            if i_ < len(me.attrs["P"]):
+                own(me.attrs["P"][i_], o.name)
+        for key, attr in (("control", "P_control"), ("control+", "P_control_plus")):
+            for i_, o in enumerate(decl[key]):
+                if i_ < len(me.attrs[attr]):
+                    own(me.attrs[attr][i_], o.name)
+        for o in decl["bspline"]:
+            sg = me.attrs["signals"].get(freeze(o))
+            if isinstance(sg, Obj):
+                own(sg.attrs.get("coeff"), o.name)
+        out["created"] = {"P": [len(me.attrs["P"])], "P_control": [len(x) if isinstance(x, list) else None for x in me.attrs["P_control"]],
+                          "P_control_plus": [len(x) if isinstance(x, list) else None for x in me.attrs["P_control_plus"]], "signals": len(me.attrs["signals"]),
+                          "shapes": {idx: by_shape.get(created[idx][0] if created[idx] and isinstance(created[idx][0], int) else None, (None, None))[1] for idx in owner},
+                          "owner": dict(owner), "n": len(created)}
+
+        def targets(t):
+            ids = set()
+            stack = [freeze(t)]
+            while stack:
+                y = stack.pop()
+                if isinstance(y, tuple):
+                    if len(y) >= 2 and y[0] == "optiparam":
+                        ids.add(y[1])
+                    else:
+                        stack.extend(y)
+            return ids
+        # declared values
+        writes.clear()
+        sp = P.method(cname, "set_parameter")
+        sim.call(sp, [me, stage, Sym("opti")], {})
+        out["transfer"] = [(sorted(set(owner.get(i_) for i_ in targets(t))), freeze(v)) for t, v in writes]
+        # set_value of each symbol, and of a symbol that is no parameter
+        sv = P.method(cname, "set_value")
+        for kind, lst in decl.items():
+            for o in lst:
+                writes.clear()
+                sim.call(sv, [me, stage, fresh_obj("master", opti=Sym("opti")), o, Sym("new_value")], {})
+                out["updates"][o.name] = [(sorted(set(owner.get(i_) for i_ in targets(t))), len(targets(t)), freeze(v)) for t, v in writes]
+        writes.clear()
+        try:
+            sim.call(sv, [me, stage, fresh_obj("master", opti=Sym("opti")), par("stranger", 9), Sym("new_value")], {})
+            out["reject"] = "accepted (%d writes)" % len(writes)
+        except LayoutUnknown as e:
+            out["reject"] = "rejected" if ("assert failed" in str(e) or "raise reached" in str(e)) else "unknown: %s" % e
+    except LayoutUnknown as e:
+        out["error"] = str(e)
+    out["decl"] = {k: [o.name for o in v] for k, v in decl.items()}
+    out["N"] = N
+    cache[cname] = out
+    return out
+
+
+@rule("R09.1", min_instances=12, desc="writer/reader tables: every parameter kind is created with its own shape and count, given its declared value, and updated by set_value through the Opti parameters created for that very symbol - decided on simulated add_parameter / set_parameter / set_value")
 def r09_1(ctx):
+    from ..layout import Sym, freeze
     prog = ctx.prog
-    # creation
-    f = prog.own_method("SamplingMethod", "add_parameter")
-    pl = param_loops(f)
-    n = ctx.norm(f)
-    want_create = {"": ("self.P", None), "control": ("self.P_control", "N"), "control+": ("self.P_control_plus", "N+1")}
-    for kind, (lst, count) in want_create.items():
-        loops = pl.get(kind, [])
-        ok = len(loops) == 1
-        found = ""
-        if ok:
-            l, ivar, pvar = loops[0]
-            apps = [a for a in ast.walk(l) if is_call_to(a, "append", lst)]
-            ok = len(apps) == 1
-            if ok:
-                a = apps[0].args[0]
-                found = ast.unparse(a)
-                if count is None:
-                    ok = is_call_to(a, "parameter", "opti") and [ast.unparse(x) for x in a.args] == ["%s.shape[0]" % pvar, "%s.shape[1]" % pvar]
-                else:
-                    ok = isinstance(a, ast.ListComp) and len(a.generators) == 1 and is_call_to(a.elt, "parameter", "opti") and \
-                        [ast.unparse(x) for x in a.elt.args] == ["%s.shape[0]" % pvar, "%s.shape[1]" % pvar]
-                    if ok:
-                        rb = n.poly(a.generators[0].iter.args[0]) if isinstance(a.generators[0].iter, ast.Call) and a.generators[0].iter.args else None
-                        ok = rb == expected("self." + count)
-        ctx.check(ok, "add_parameter kind '%s'" % kind, detail="creation of Opti parameters",
-                  expected="%s gets one Opti parameter%s per declared symbol, of the symbol's shape" % (lst, "" if count is None else " list of length " + count),
-                  found=found, fi=f, sample={"kind": kind, "create": found})
-    g = prog.own_method("SamplingMethod", "add_parameter_signals")
-    pls = param_loops(g)
-    ok = len(pls.get("bspline", [])) == 1
-    if ok:
-        l, ivar, pvar = pls["bspline"][0]
-        reg = [c for c in ast.walk(l) if is_call_to(c, "register", "BSplineSignal")]
-        ok = len(reg) == 1 and ast.unparse(reg[0].args[0]) == "self.signals" and ast.unparse(reg[0].args[1]) == pvar
-    ctx.check(ok, "add_parameter_signals kind 'bspline'", detail="creation of B-spline parameter signals", expected="BSplineSignal.register(self.signals, p, stage, ...) per bspline parameter", found="", fi=g)
-    # value transfer and update
-    for fname, value_text, guarded in (("set_parameter", "stage._param_value({p})", False), ("set_value", None, True)):
-        h = prog.own_method("SamplingMethod", fname)
-        pl2 = param_loops(h)
-        for kind in KINDS:
-            loops = pl2.get(kind, [])
-            ok = len(loops) == 1
-            found = ""
-            if ok:
-                l, ivar, pvar = loops[0]
-                sets = [c for c in ast.walk(l) if is_call_to(c, "set_value", "opti")]
-                ok = len(sets) == 1 and len(sets[0].args) == 2
-                if ok:
-                    tgt = Norm(None).key(sets[0].args[0])
-                    want = Norm(None).key(ast.parse(TARGET[kind].format(i=ivar, p=pvar), mode="eval").body)
-                    found = tgt
-                    ok = tgt == want
-                    if value_text is not None:
-                        ok = ok and ast.unparse(sets[0].args[1]) == value_text.format(p=pvar)
-                    else:
-                        ok = ok and ast.unparse(sets[0].args[1]) == h.params[4]
-                    gs = [(ast.unparse(t), p) for t, p in ctx.scope(h).guards(sets[0])]
-                    if guarded:
-                        ok = ok and gs == [("is_equal(%s, %s)" % (h.params[3], pvar), True)]
-                    else:
-                        ok = ok and not gs
-            ctx.check(ok, "%s kind '%s'" % (fname, kind), detail="value written to another Opti parameter / under another condition",
-                      expected="opti.set_value(%s, ...) for the symbol enumerated at the same position" % TARGET[kind].format(i="i", p="p"),
-                      found=found, fi=h, sample={"fn": fname, "kind": kind, "target": found})
-    # DirectMethod (variable-only stages) handles the global kind with the same index
-    for fname in ("set_parameter", "set_value"):
-        h = prog.own_method("DirectMethod", fname)
-        loops = param_loops(h).get("", [])
-        ok = len(loops) == 1
-        if ok:
-            l, ivar, pvar = loops[0]
-            sets = [c for c in ast.walk(l) if is_call_to(c, "set_value", "opti")]
-            ok = len(sets) == 1 and ast.unparse(sets[0].args[0]) == "self.P[%s]" % ivar
-        ctx.check(ok, "DirectMethod.%s kind ''" % fname, detail="global parameter index", expected="opti.set_value(self.P[i], ...)", found="", fi=h)
-    h = prog.own_method("SamplingMethod", "set_value")
-    asserts = [a for a in walk_no_nested(h.node) if isinstance(a, ast.Assert) and ast.unparse(a.test) == "found"]
-    ctx.check(len(asserts) == 1, "SamplingMethod.set_value rejects a symbol that is no parameter", detail="non-parameter accepted after transcription", expected="assert found", found=str(len(asserts)), fi=h)
+    for cname in ("SamplingMethod", "DirectMethod"):
+        f = prog.method(cname, "set_value")
+        r = parameter_scenario(ctx, cname)
+        if r["error"]:
+            raise AnalysisError("%s parameter functions could not be simulated: %s" % (cname, r["error"]))
+        N = r["N"]
+        decl = r["decl"]
+        c = r["created"]
+        label = "" if cname == "SamplingMethod" else "DirectMethod."
+        ok = c["P"] == [len(decl[""])] and c["P_control"] == [N] * len(decl["control"]) and c["P_control_plus"] == [N + 1] * len(decl["control+"]) and c["signals"] == len(decl["bspline"])
+        ctx.check(ok, "%sadd_parameter creates one Opti parameter per global symbol, N per per-interval symbol, N+1 with include_last, one coefficient matrix per B-spline parameter" % label,
+                  detail="creation of Opti parameters", expected="P: %d, P_control: %s, P_control_plus: %s, signals: %d" % (len(decl[""]), [N] * len(decl["control"]), [N + 1] * len(decl["control+"]), len(decl["bspline"])),
+                  found=str({k: c[k] for k in ("P", "P_control", "P_control_plus", "signals")}), fi=prog.method(cname, "add_parameter") if cname == "SamplingMethod" else prog.own_method("DirectMethod", "add_parameters"), sample={"created": str(c)[:200]})
+        bad = {i_: (who, c["shapes"].get(i_)) for i_, who in c["owner"].items() if c["shapes"].get(i_) != who}
+        ctx.check(not bad, "%severy Opti parameter has the shape of the symbol it stands for" % label, detail="creation of Opti parameters (shape of another symbol)", expected="opti.parameter(<rows of p>, ..) stored at p's position",
+                  found=str(bad)[:160], fi=f)
+        want = sorted(([name], freeze(Sym("declared_value", name))) for k, lst in decl.items() for name in lst)
+        got = sorted((t, v) for t, v in r["transfer"])
+        ctx.check(got == want, "%sset_parameter hands every declared value to the Opti parameters of its own symbol" % label, detail="value written to another Opti parameter / under another condition",
+                  expected=want, found=got, fi=prog.method(cname, "set_parameter"), sample={"transfer": str(got)[:200]})
+        for kind, lst in decl.items():
+            for name in lst:
+                ups = r["updates"].get(name)
+                n_expected = {"": 1, "control": N, "control+": N + 1, "bspline": 1}[kind]
+                ok = ups is not None and len(ups) == 1 and ups[0][0] == [name] and ups[0][1] == n_expected and ups[0][2] == freeze(Sym("new_value"))
+                ctx.check(ok, "%sset_value kind '%s'" % (label, kind), detail="value written to another Opti parameter / under another condition",
+                          expected="one write of the new value to the %d Opti parameter(s) created for %s" % (n_expected, name), found=str(ups)[:160], fi=f, sample={"fn": "set_value", "kind": kind, "target": str(ups)[:80]})
+        ctx.check(r["reject"] == "rejected", "%s.set_value rejects a symbol that is no parameter" % cname, detail="non-parameter accepted after transcription", expected="assertion / exception",
+                  found=r["reject"], fi=f)
 
 
 @rule("R09.3", min_instances=4, desc="values reach Opti in phase 1 and again in phase 2; per-interval selection at the final node takes the extra column for include_last parameters")
